@@ -63,6 +63,7 @@ type interpreter struct {
 	depth              int
 	mutexHeld          map[*value]int
 	opaque             map[*value][]value
+	kdfMemo            map[string][]value
 	panicTrace         string
 	boxSeq             int
 }
